@@ -429,6 +429,57 @@ def _required(f) -> bool:  # type: ignore[no-untyped-def]
     return "nullable=True" not in decl
 
 
+def _single_cell(node, cell):  # type: ignore[no-untyped-def]
+    """The one describe column every test of a conditional expression looks at (else None)."""
+    cols = set()
+
+    def test_cols(t):  # type: ignore[no-untyped-def]
+        if isinstance(t, ast.UnaryOp) and isinstance(t.op, ast.Not):
+            return test_cols(t.operand)
+        if isinstance(t, ast.Compare) and len(t.ops) == 1 and isinstance(t.ops[0], (ast.Is, ast.IsNot, ast.Eq, ast.NotEq)):
+            t = t.left
+        c = cell(t)
+        if c is None:
+            raise Unsupported("conditional over something that is not a describe cell")
+        cols.add(c)
+
+    def walk(n):  # type: ignore[no-untyped-def]
+        if isinstance(n, ast.IfExp):
+            test_cols(n.test)
+            walk(n.body)
+            walk(n.orelse)
+
+    walk(node)
+    return cols.pop() if len(cols) == 1 else None
+
+
+def _eval_cond(node, v, cell):  # type: ignore[no-untyped-def]
+    """Value (bytes) of a conditional expression when the cell holds ``v`` (None / True / False)."""
+    if isinstance(node, ast.Constant) and isinstance(node.value, bytes):
+        return node.value
+    if not isinstance(node, ast.IfExp):
+        raise Unsupported("branch value is not a bytes literal")
+
+    def truth(t):  # type: ignore[no-untyped-def]
+        if isinstance(t, ast.UnaryOp) and isinstance(t.op, ast.Not):
+            return not truth(t.operand)
+        if isinstance(t, ast.Compare) and len(t.ops) == 1 and isinstance(t.comparators[0], ast.Constant) and cell(t.left) is not None:
+            k = t.comparators[0].value
+            if isinstance(t.ops[0], ast.Is):
+                return v is k
+            if isinstance(t.ops[0], ast.IsNot):
+                return v is not k
+            if isinstance(t.ops[0], ast.Eq):
+                return v == k
+            if isinstance(t.ops[0], ast.NotEq):
+                return v != k
+        if cell(t) is not None:
+            return bool(v)
+        raise Unsupported("test " + ast.dump(t)[:60])
+
+    return _eval_cond(node.body if truth(node.test) else node.orelse, v, cell)
+
+
 def _pieces_from_ast():  # type: ignore[no-untyped-def]
     """compute_protocol_hash -> (header pieces, per-row pieces).
 
@@ -491,16 +542,14 @@ def _pieces_from_ast():  # type: ignore[no-untyped-def]
             if c is not None and kinds.get(c) == "blob":
                 return ("blob", c)
             if isinstance(node, ast.IfExp):
-                t = node.test
-                ct = cell(t, loopvar, local)
-                if ct is not None and kinds.get(ct) == "bool":
-                    return ("ifbool", ct, lit(node.body), lit(node.orelse))
-                if (isinstance(t, ast.Compare) and len(t.ops) == 1 and isinstance(t.ops[0], ast.Is) and isinstance(t.comparators[0], ast.Constant)
-                        and t.comparators[0].value is None):
-                    c0 = cell(t.left, loopvar, local)
-                    inner = node.orelse
-                    if c0 is not None and kinds.get(c0) == "optbool" and isinstance(inner, ast.IfExp) and cell(inner.test, loopvar, local) == c0:
-                        return ("ifopt", c0, lit(node.body), lit(inner.body), lit(inner.orelse))
+                # a (possibly nested) conditional over ONE bool / optional-bool cell: evaluate the expression tree for
+                # each abstract value of that cell (True, False and, for an optional column, None)
+                col = _single_cell(node, lambda n: cell(n, loopvar, local))
+                if col is not None and kinds.get(col) in ("bool", "optbool"):
+                    table = {v: _eval_cond(node, v, lambda n: cell(n, loopvar, local)) for v in (None, True, False)}
+                    if kinds[col] == "bool":
+                        return ("ifbool", col, table[True], table[False])
+                    return ("ifopt", col, table[None], table[True], table[False])
         raise Unsupported("update() argument " + ast.dump(node)[:80])
 
     def is_update(st):  # type: ignore[no-untyped-def]
